@@ -77,6 +77,9 @@ type Contract struct {
 	GhostAdds []GhostAdd // `ghostadd <set> <object expr> <element expr>`: the call adds the element to the object's ghost set
 	NoSafety bool    // `nosafety`: panic-freedom / overflow obligations of this function are assumed, not claimed
 	NoAlloc  bool    // the callee allocates nothing the caller can observe (results point to existing objects)
+	// Defines: the Function expression is an application of an uninterpreted symbol that is *defined* as this
+	// function's result (no obligation; assumes the function is a deterministic function of the listed arguments)
+	Defines  bool
 	Function *Clause // `function <expr>`: the (single) result is exactly this expression of the arguments and the heap
 	AllocBound *Clause // every make([]T, n) reached from the function satisfies n <= AllocBound
 	Used     bool
@@ -114,8 +117,10 @@ type Lemma struct {
 	Ensures  []*Clause
 	File     string
 	Line     int
-	Induct   string // name of integer param to do induction on (optional)
-	Uses     []string
+	// Uses: applications `name(args)` of this lemma (the induction hypothesis, under its Decreases measure) or
+	// of a lemma declared earlier in the same package, assumed as requires ==> ensures
+	Uses      []*Clause
+	Decreases *Clause
 }
 
 var quantRe = regexp.MustCompile(`^(forall|exists)\s+`)
@@ -401,6 +406,7 @@ type Binding struct {
 type ContractFile struct {
 	Bindings   []*Binding
 	GlobalInvs []*GlobalInv
+	FieldFuncs map[string]string
 	Contracts []*Contract
 	Preds     []*Pred
 	Lemmas    []*Lemma
@@ -415,7 +421,7 @@ var loopRe = regexp.MustCompile(`^loop\s+([0-9]+)\s*:\s*(invariant|decreases|ent
 
 var clauseKeywords = map[string]bool{"func": true, "extern": true, "pred": true, "lemma": true, "axiom": true, "requires": true, "ensures": true,
 	"assigns": true, "pure": true, "wrapping": true, "trusted": true, "inline": true, "props": true, "loop": true, "let": true,
-	"induct": true, "uses": true, "bounded": true, "excluding": true, "global-inv": true, "binding": true, "except": true, "allocbound": true, "function": true, "noalloc": true, "ghostadd": true, "nosafety": true, "ghostput": true}
+	"induct": true, "uses": true, "bounded": true, "excluding": true, "global-inv": true, "binding": true, "except": true, "allocbound": true, "function": true, "noalloc": true, "ghostadd": true, "nosafety": true, "ghostput": true, "fieldfunc": true, "defines": true, "decreases": true}
 
 func parseContractFile(path string, pkgPath string) (*ContractFile, error) {
 	f, err := os.Open(path)
@@ -514,6 +520,18 @@ func parseContractFile(path string, pkgPath string) (*ContractFile, error) {
 			curBinding.Except = append(curBinding.Except, strings.Fields(rest)...)
 		case kw == "props" && curBinding != nil && cur == nil && curLemma == nil:
 			curBinding.Props = strings.Fields(rest)
+		case kw == "fieldfunc":
+			// fieldfunc <Type>.<field> hashconcat : calls through this func-typed field are modelled as
+			// hash32 of the concatenation of their byte-slice arguments (an assumption about the value stored there).
+			fs := strings.Fields(rest)
+			if len(fs) != 2 || fs[1] != "hashconcat" || !strings.Contains(fs[0], ".") {
+				return nil, fmt.Errorf("%s:%d: bad fieldfunc %q", path, rl.line, rest)
+			}
+			if cf.FieldFuncs == nil {
+				cf.FieldFuncs = map[string]string{}
+			}
+			cf.FieldFuncs[pkgPath+"."+fs[0]] = fs[1]
+			cur, curLemma, curBinding = nil, nil, nil
 		case kw == "global-inv":
 			c, err := mk(rest, rl.line)
 			if err != nil {
@@ -566,9 +584,17 @@ func parseContractFile(path string, pkgPath string) (*ContractFile, error) {
 				return nil, fmt.Errorf("%s:%d: clause outside contract", path, rl.line)
 			}
 		case kw == "uses" && curLemma != nil:
-			curLemma.Uses = append(curLemma.Uses, strings.Fields(rest)...)
-		case kw == "induct" && curLemma != nil:
-			curLemma.Induct = rest
+			c, err := mk(rest, rl.line)
+			if err != nil {
+				return nil, err
+			}
+			curLemma.Uses = append(curLemma.Uses, c)
+		case kw == "decreases" && curLemma != nil:
+			c, err := mk(rest, rl.line)
+			if err != nil {
+				return nil, err
+			}
+			curLemma.Decreases = c
 		case cur == nil:
 			return nil, fmt.Errorf("%s:%d: clause %q outside func contract", path, rl.line, kw)
 		case kw == "assigns":
@@ -579,12 +605,13 @@ func parseContractFile(path string, pkgPath string) (*ContractFile, error) {
 					cur.Assigns = append(cur.Assigns, d)
 				}
 			}
-		case kw == "function":
+		case kw == "function" || kw == "defines":
 			c, err := mk(rest, rl.line)
 			if err != nil {
 				return nil, err
 			}
 			cur.Function = c
+			cur.Defines = kw == "defines"
 			cur.Pure = true
 			cur.HasFrame = true
 		case kw == "allocbound":
